@@ -69,7 +69,16 @@ def run(c):
         return {"ok": False, "err": list(r)}
     (concl, ts) = r[1]
     log = [[int(v) for v in l] for l in log]
-    return {"ok": True, "concl": [bool(concl[0]), bool(concl[1])], "ts": float(ts), "log": log, "unmodified": [int(v) for v in xs] == c["xs"]}
+    # the decision returned is the caller's own object: clearing it must not change what a later, identical call reports
+    first = [bool(concl[0]), bool(concl[1])]
+    again = None
+    if isinstance(concl, list):
+        concl[0] = not concl[0]; concl[1] = not concl[1]
+        r2 = guarded(lambda: sprt(lr, float(Fraction(c["alpha"])), float(Fraction(c["beta"])), xs, c["ro"]))
+        again = [bool(r2[1][0][0]), bool(r2[1][0][1])] if r2[0] == "ok" else list(r2)[:2]
+        log = log[:len(log) // 2] if r2[0] == "ok" and len(log) % 2 == 0 else log
+    concl = first
+    return {"ok": True, "concl": [bool(concl[0]), bool(concl[1])], "again": again, "ts": float(ts), "log": log, "unmodified": [int(v) for v in xs] == c["xs"]}
 
 
 def spec(c):
@@ -111,6 +120,8 @@ def oracle(c, o):
         return None
     if o["log"] != log:
         return {"why": f"likelihood ratio evaluated on {o['log']}, Wald's rule examines {log}", "cls": "sprt:prefixes"}
+    if o.get("again") is not None and o["again"] != o["concl"]:
+        return {"why": f"sprt reported {o['concl']}; after the caller edited that list, an identical second call reports {o['again']}: the decision objects are shared between calls", "cls": "sprt:decision"}
     if o["concl"] != concl:
         return {"why": f"decision {o['concl']} but ratio {float(ts)} with thresholds demands {concl}", "cls": "sprt:decision"}
     if ts == float("inf") or o["ts"] == float("inf"):
